@@ -4,6 +4,7 @@ import TonicModel.Lemmas.Shutdown
 import TonicModel.Lemmas.ShutdownViews
 import TonicModel.Lemmas.ShutdownProgress
 import TonicModel.Lemmas.ShutdownTrack
+import TonicModel.Lemmas.ShutdownContract
 /-
 C13 — Graceful shutdown loses no accepted call.  Property theorems only; the invariant and its
 preservation are in `Lemmas/Shutdown`, the oracle in `Spec/Shutdown`.
@@ -11,17 +12,43 @@ preservation are in `Lemmas/Shutdown`, the oracle in `Spec/Shutdown`.
 `Reachable g b a s`: `s` is reachable from the initial state of a server configured with
 `g` (a shutdown signal is given), `b` (the accept loop's `select!` is `biased;`, i.e. the repaired
 code) and `a` (`max_connection_age` set) by ANY finite interleaving of enabled steps — any number
-of connections and calls, any placement of the signal, any order of task steps.
+of connections (plain or through the TLS handshake set) and calls (all four shapes), any placement
+of the signal, any order of task steps.
 
-PARTIAL with respect to hyper: the guard `hyperConnDone` of the step `connBreak` (the hyper
-connection future resolves only when the peer left, or graceful shutdown was requested and every
-accepted stream has been answered and flushed) is hyper's contract, not proved here.
+WHAT IS PROVED ABOUT TONIC'S OWN LOGIC (serve_internal, serve_connection, Fuse, ServerIoStream):
+  * (b) the biased accept loop takes nothing once the signal is ready — `C13_no_accept_after_signal`,
+    `C13_accept_disabled_after_signal`, `C13_no_accept_after_signal_trace`,
+    `C13_no_accept_once_loop_over`, and `C13_no_accept_after_signal_fails` for the loop as found;
+  * (c) the watch channel's receiver count is exactly "own receiver + one per unfinished
+    connection task", a count of 0 means all accepted connections are closed, the serve future
+    resolves iff the loop is over and the count is 0 — `C13_receiver_count_is_open_connections`,
+    `C13_resolve_enabled_iff`, `C13_resolve_only_when_all_closed`;
+  * (d) progress: the server's own steps terminate, a draining server is never stuck, and EVERY
+    maximal run of its own steps from a closeable state ends resolved —
+    `C13_internal_steps_terminate`, `C13_not_stuck_before_resolved`,
+    `C13_every_maximal_run_resolves`, `C13_maximal_run_exists`,
+    `C13_resolve_enabled_once_all_closed`, `C13_shutdown_completes`.
+
+WHAT IS TAKEN FROM HYPER ON TRUST, and what merely follows from it: clause (a), "every accepted
+call runs to completion", is hyper's graceful-shutdown contract.  In the model it is the guard
+`hyperConnDone` of the step `connBreak`; `C13_inflight_never_dropped` and
+`C13_accepted_call_runs_to_completion` follow from that guard (plus tonic never dropping a
+connection task or a stream itself, which IS checked: no tonic step touches `calls`), and
+`C13_outcomes_truthful` holds by construction of `produce` / `deliver`.  The trusted part is one
+named object, `HyperGracefulContract` (Lemmas/ShutdownContract): `C13_hyper_contract_of_model`,
+`C13_safety_under_hyper_contract`, `C13_every_maximal_run_resolves_under_hyper_contract` state
+that the theorems hold for ANY hyper satisfying it.  Whether the real hyper does is exercised by
+the correspondence runs only.
 -/
 namespace C13
 open Shutdown Spec.Shutdown
 
 /-- (a, truth) In every reachable state every caller holds a prefix of the true outcome of its
-call, and nothing at all of a call the server did not accept. -/
+call, and nothing at all of a call the server did not accept.
+BY CONSTRUCTION of the model: `produce` appends the handler's next chunk of the plan, `deliver`
+hands over the next written item — the model has no step that could corrupt or reorder an item.
+That the real stack (tonic's encoder, hyper, h2) does not is what the correspondence runs check
+(message contents, the response header and the status text are compared per call). -/
 theorem C13_outcomes_truthful {g b a : Bool} {s : State} (h : Reachable g b a s) :
     truthful (callViews s) = true := by
   have hg := good_reachable h
@@ -196,7 +223,11 @@ theorem C13_resolve_enabled_iff (s : State) :
     | false => simp [hgr] at this
     | true => exact this.2 (h3 hgr)
 
-/-- (a, step by step) An accepted call is never dropped by the server: for every reachable state
+/-- (a, step by step) FOLLOWS FROM hyper's contract (the guard `hyperConnDone` of `connBreak`)
+together with a fact about tonic that is checked here: none of tonic's own steps (accept loop,
+`send`, `graceful_shutdown()` calls, dropping the watcher, resolving) removes a call or closes a
+connection — only `connBreak` closes, and only under hyper's guard.
+An accepted call is never dropped by the server: for every reachable state
 and EVERY step out of it — the signal, the accept loop ending, `send`, a connection task seeing the
 signal or its age limit, graceful shutdown, the final GOAWAY, other connections closing, the serve
 future resolving, … — other than the caller's own `cancel` of this call or `peerDrop` of its
@@ -228,9 +259,10 @@ theorem C13_internal_steps_terminate {s s' : State} {ls : List Label}
   internal_run_bounded hall h
 
 /-- (d, no stuck state) In every reachable state in which shutdown has been requested (signal
-fired, or incoming ended, or the loop is over), no handler is waiting for an outside release, and
-the future has not resolved yet, the server can take a step of its own.  With
-`C13_internal_steps_terminate`: every maximal run of internal steps ends in a resolved state. -/
+fired, or incoming ended, or the loop is over), no handler is waiting for an outside release or
+for the rest of its caller's request, and the future has not resolved yet, the server can take a
+step of its own.  (`Unblocked` is a property of one state; `Closeable`, which internal steps
+preserve, is what `C13_every_maximal_run_resolves` uses.) -/
 theorem C13_not_stuck_before_resolved {b a : Bool} {s : State} (h : Reachable true b a s)
     (hreq : ShutdownRequested s) (hub : Unblocked s) (hres : s.resolved = false) :
     ∃ l, l.internal = true ∧ (step s l).isSome = true :=
@@ -257,39 +289,51 @@ theorem C13_resolve_enabled_once_all_closed {b a : Bool} {s : State} (h : Reacha
   · intro s hg hp hr
     exact progress hg hp.1 (Or.inr (Or.inr hp.2.1)) (unblocked_of_allClosed hg hp.2.2) hr
 
-/-- (a)+(d) liveness of the whole shutdown: from every reachable state in which shutdown has been
-requested and handlers are left to run, the server reaches — by its own steps alone, in at most
+/-- (a)+(d) liveness of the whole shutdown (existential form; `C13_every_maximal_run_resolves` is
+the universal one): from every reachable state in which shutdown has been
+requested, handlers are left to run and every remaining caller has completed its request
+(`RequestsDone`; trivially true of unary and server-streaming calls), the server reaches — by its own steps alone, in at most
 `weight s` of them, without any client having to go away — a state where the serve future has
 resolved; by `C13_resolve_only_when_all_closed` every accepted call is complete there. -/
 theorem C13_shutdown_completes {b a : Bool} {s : State} (h : Reachable true b a s)
-    (hreq : ShutdownRequested s) (hfree : s.freeRun = true) :
+    (hreq : ShutdownRequested s) (hfree : s.freeRun = true) (hdone : RequestsDone s) :
     ∃ ls s', (∀ l ∈ ls, l.internal = true) ∧ run s ls = some s' ∧ s'.resolved = true
       ∧ ls.length ≤ weight s := by
-  refine drain (fun s => s.cfgGraceful = true ∧ ShutdownRequested s ∧ s.freeRun = true) ?_ ?_
-    (weight s) s (Nat.le_refl _) (good_reachable h) ⟨(reachable_cfg h).1, hreq, hfree⟩
+  refine drain (fun s => s.cfgGraceful = true ∧ ShutdownRequested s ∧ s.freeRun = true
+      ∧ RequestsDone s) ?_ ?_
+    (weight s) s (Nat.le_refl _) (good_reachable h) ⟨(reachable_cfg h).1, hreq, hfree, hdone⟩
   · intro s l s' _ hp hi hs
     have hm := step_mono hs
-    refine ⟨(step_cfg hs).1.trans hp.1, ?_, hm.2.2.2 hp.2.2⟩
+    refine ⟨(step_cfg hs).1.trans hp.1, ?_, hm.2.2.2 hp.2.2.1, requestsDone_step hp.2.2.2 hi hs⟩
     rcases hp.2.1 with hx | hx | hx
     · exact Or.inl (hm.1 hx)
     · exact Or.inr (Or.inl (hm.2.1 hx))
     · exact Or.inr (Or.inr (hm.2.2.1 hx))
   · intro s hg hp hr
-    exact progress hg hp.1 hp.2.1 (fun _ _ _ _ _ _ _ _ => Or.inr hp.2.2) hr
+    exact progress hg hp.1 hp.2.1
+      (fun cn hcn _ k hk _ hcan _ =>
+        ⟨Or.inr hp.2.2.1, reqReady_of_reqLeft (hp.2.2.2 cn hcn k hk hcan)⟩) hr
 
-/-- (a) end to end, for one call: take ANY reachable state in which shutdown has been requested —
+/-- (a) end to end, for one call.  FOLLOWS FROM hyper's contract (`hyperConnDone`: a connection
+closes under a call only when the call is settled) and the progress result
+`C13_shutdown_completes`, which is about tonic's bookkeeping; `RequestsDone` — every caller that
+is still there has sent its complete request — is needed since client-streaming and bidi calls
+exist in the model (a handler's last phase waits for the end of the request stream; a client that
+never finishes its request keeps a graceful shutdown waiting for ever, in the real server too).
+Take ANY reachable state in which shutdown has been requested —
 so the signal may have fired before the call's response headers, mid-stream or as it completes —
 and a call the server has accepted there whose caller is still present.  If handlers are left to
 run, the server by its own steps reaches a state where the serve future has resolved and THIS call
 (same slot, same true outcome) has been received by its caller completely. -/
 theorem C13_accepted_call_runs_to_completion {b a : Bool} {s : State} {c j : Nat} {cn : Conn}
     {k : Call} (h : Reachable true b a s) (hreq : ShutdownRequested s) (hfree : s.freeRun = true)
+    (hdone : RequestsDone s)
     (hc : s.conns[c]? = some cn) (hk : cn.calls[j]? = some k)
     (hst : k.started = true) (hcan : k.cancelled = false) (hpg : cn.peerGone = false) :
     ∃ ls s' cn' k', (∀ l ∈ ls, l.internal = true) ∧ run s ls = some s' ∧ s'.resolved = true
       ∧ s'.conns[c]? = some cn' ∧ cn'.calls[j]? = some k' ∧ k'.plan = k.plan
       ∧ (callView cn' k').got = k.plan.map toOut := by
-  obtain ⟨ls, s', hall, hrun, hres, _⟩ := C13_shutdown_completes h hreq hfree
+  obtain ⟨ls, s', hall, hrun, hres, _⟩ := C13_shutdown_completes h hreq hfree hdone
   obtain ⟨cn', k', h1, h2, h3, h4, h5, h6, _, _⟩ :=
     run_keeps_call hall hrun (KeptIn.self hc hk hcan hpg)
   have hg' := good_run (good_reachable h) hrun
@@ -302,12 +346,175 @@ theorem C13_accepted_call_runs_to_completion {b a : Bool} {s : State} {c j : Nat
   rw [callView_complete (hk'.calls_ok k' hkm) hcomp]
   simp [callView, h6]
 
+/-- TLS accept path (`ServerIoStream`): a failed handshake does not stop the accept loop — after
+`tlsFail c` the loop is as it was, and every other connection that could be accepted (or handed to
+the handshake set) before still can. -/
+theorem C13_failed_handshake_keeps_accepting {s s' : State} {c c' : Nat}
+    (h : step s (.tlsFail c) = some s') (hne : c' ≠ c) :
+    s'.loopRunning = s.loopRunning ∧ incomingBranch s' = incomingBranch s
+    ∧ ((step s (.loopAccept c')).isSome = true → (step s' (.loopAccept c')).isSome = true)
+    ∧ ((step s (.tlsTake c')).isSome = true → (step s' (.tlsTake c')).isSome = true) := by
+  simp only [step] at h
+  obtain ⟨cn, hc, _, rfl⟩ := updConn_some h
+  have hget : (s.conns.set c { cn with pending := false })[c']? = s.conns[c']? :=
+    List.getElem?_set_ne (Ne.symm hne)
+  have key : ∀ (s1 s2 : State) (g : Conn → Bool) (f1 f2 : Conn → Conn),
+      s2.conns[c']? = s1.conns[c']? →
+      (updConn s1 c' g f1).isSome = true → (updConn s2 c' g f2).isSome = true := by
+    intro s1 s2 g f1 f2 he h1
+    unfold updConn at h1 ⊢
+    rw [he]
+    cases hq : s1.conns[c']? with
+    | none => simp [hq] at h1
+    | some x =>
+      simp only [hq] at h1 ⊢
+      cases hgx : g x with
+      | true => simp
+      | false => simp [hgx] at h1
+  refine ⟨rfl, rfl, ?_, ?_⟩
+  · intro h1
+    simp only [step] at h1 ⊢
+    have hib : incomingBranch { s with conns := s.conns.set c { cn with pending := false } }
+        = incomingBranch s := rfl
+    rw [hib]
+    cases hb : incomingBranch s with
+    | false => simp [hb] at h1
+    | true =>
+      simp only [hb, if_true] at h1 ⊢
+      exact key _ _ _ _ _ hget h1
+  · intro h1
+    simp only [step] at h1 ⊢
+    have hib : incomingBranch { s with conns := s.conns.set c { cn with pending := false } }
+        = incomingBranch s := rfl
+    rw [hib]
+    cases hb : incomingBranch s with
+    | false => simp [hb] at h1
+    | true =>
+      simp only [hb, if_true] at h1 ⊢
+      exact key _ _ _ _ _ hget h1
+
+/-- TLS accept path: a connection whose handshake is still running (or has just finished) in the
+`JoinSet` when the signal fires is never accepted by the repaired loop — whether it was offered
+before or after the signal. -/
+theorem C13_handshake_in_progress_at_signal_not_accepted {g a : Bool} {s s' : State}
+    {ls : List Label} {c : Nat} (h : Reachable g true a s) (hs : s.sigReady = true)
+    (hrun : run s ls = some s') :
+    step s' (.loopAccept c) = none ∧ step s' (.tlsTake c) = none := by
+  have hr' := reachable_run h hrun
+  have hsig := (run_mono hrun).1 hs
+  refine ⟨C13_accept_disabled_after_signal hr' hsig c, ?_⟩
+  have hg := good_reachable hr'
+  have hb := (reachable_cfg hr').2.1
+  simp only [step]
+  cases hrn : s'.loopRunning with
+  | false => simp [incomingBranch, hrn]
+  | true =>
+    have := hg.running_not_taken hrn
+    simp [incomingBranch, sigBranchReady, hrn, hb, hsig, this]
+
+/-- (d, universal form) EVERY maximal run of the server's own steps resolves: take any reachable
+state in which shutdown has been requested and all connections are closeable (every call its
+caller still wants has its complete request and all the releases its handler needs, or handlers
+run freely).  Whatever internal steps the server's tasks take from there, in whatever order —
+if the run cannot be extended (no internal step is enabled at its end), the serve future has
+resolved there, after at most `weight s` steps.  (Termination measure `weight` + the progress
+lemma: a non-resolved draining state always has an enabled internal step.) -/
+theorem C13_every_maximal_run_resolves {b a : Bool} {s s' : State} {ls : List Label}
+    (h : Reachable true b a s) (hreq : ShutdownRequested s) (hcl : Closeable s)
+    (hall : ∀ l ∈ ls, l.internal = true) (hrun : run s ls = some s')
+    (hmax : ∀ l, l.internal = true → step s' l = none) :
+    s'.resolved = true ∧ ls.length ≤ weight s := by
+  have hd : Draining s := ⟨good_reachable h, (reachable_cfg h).1, hreq, hcl⟩
+  have hd' := draining_run hd hall hrun
+  refine ⟨?_, by have := internal_run_bounded hall hrun; omega⟩
+  cases hres : s'.resolved with
+  | true => rfl
+  | false =>
+    obtain ⟨l, hi, _, hs⟩ := draining_progress hd' hres
+    rw [hmax l hi] at hs
+    cases hs
+
+/-- … and maximal runs exist: from ANY state, any run of internal steps can be continued to one
+that cannot be extended (there is no infinite run of internal steps). -/
+theorem C13_maximal_run_exists (s : State) :
+    ∃ ls s', (∀ l ∈ ls, l.internal = true) ∧ run s ls = some s'
+      ∧ (∀ l, l.internal = true → step s' l = none) := by
+  suffices hgen : ∀ (n : Nat) (s : State), weight s ≤ n →
+      ∃ ls s', (∀ l ∈ ls, l.internal = true) ∧ run s ls = some s'
+        ∧ (∀ l, l.internal = true → step s' l = none) from hgen (weight s) s (Nat.le_refl _)
+  intro n
+  induction n with
+  | zero =>
+    intro s hw
+    refine ⟨[], s, by simp, rfl, fun l hi => ?_⟩
+    cases hs : step s l with
+    | none => rfl
+    | some s1 => have := internal_step_decreases hi hs; omega
+  | succ n ih =>
+    intro s hw
+    by_cases hex : ∃ l s1, l.internal = true ∧ step s l = some s1
+    · obtain ⟨l, s1, hi, hs1⟩ := hex
+      have hlt := internal_step_decreases hi hs1
+      obtain ⟨ls, s', hall, hrun, hmax⟩ := ih s1 (by omega)
+      refine ⟨l :: ls, s', ?_, by simp only [run, hs1]; exact hrun, hmax⟩
+      intro x hx
+      rcases List.mem_cons.1 hx with rfl | hx
+      · exact hi
+      · exact hall x hx
+    · refine ⟨[], s, by simp, rfl, fun l hi => ?_⟩
+      cases hs : step s l with
+      | none => rfl
+      | some s1 => exact absurd ⟨l, s1, hi, hs⟩ hex
+
+/-- The trusted object is inhabited by the model's own guards, and the model IS the transition
+system over them: `step = stepH hyperModel`, `hyperModel` satisfies `HyperGracefulContract`.  So
+every theorem above is the instance `H := hyperModel` of a statement about an arbitrary hyper. -/
+theorem C13_hyper_contract_of_model :
+    HyperGracefulContract hyperModel ∧ ∀ s l, stepH hyperModel s l = step s l :=
+  ⟨hyperModel_contract, stepH_hyperModel⟩
+
+/-- SAFETY for any hyper that satisfies the safety half of the contract: every state the server
+can reach over such a hyper is a reachable state of the model, hence the clauses (a truth),
+(b), (c) hold in it. -/
+theorem C13_safety_under_hyper_contract {H : Hyper} (hc : HyperSafety H) {b a : Bool} {s : State}
+    (h : ReachableH H true b a s) :
+    Reachable true b a s
+    ∧ truthful (callViews s) = true
+    ∧ resolvedOnlyAfterClose s.resolved (connViews s) (callViews s) = true
+    ∧ (b = true → noAcceptAfterSignal (connViews s) = true) := by
+  have hr := reachableH_sub hc h
+  refine ⟨hr, C13_outcomes_truthful hr, (C13_resolve_only_when_all_closed hr).1, fun hb => ?_⟩
+  subst hb
+  exact C13_no_accept_after_signal hr
+
+/-- LIVENESS for any hyper that satisfies the whole contract: every maximal run of the server's
+own steps OVER THAT HYPER, from a reachable state in which shutdown has been requested and all
+connections are closeable, ends with the serve future resolved (and is at most `weight s` long). -/
+theorem C13_every_maximal_run_resolves_under_hyper_contract {H : Hyper}
+    (hc : HyperGracefulContract H) {b a : Bool} {s s' : State} {ls : List Label}
+    (h : ReachableH H true b a s) (hreq : ShutdownRequested s) (hcl : Closeable s)
+    (hall : ∀ l ∈ ls, l.internal = true) (hrun : runH H s ls = some s')
+    (hmax : ∀ l, l.internal = true → stepH H s' l = none) :
+    s'.resolved = true ∧ ls.length ≤ weight s := by
+  have hr := reachableH_sub hc.toHyperSafety h
+  have hrun' := runH_sub hc.toHyperSafety hrun
+  have hd : Draining s := ⟨good_reachable hr, (reachable_cfg hr).1, hreq, hcl⟩
+  have hd' := draining_run hd hall hrun'
+  refine ⟨?_, by have := internal_run_bounded hall hrun'; omega⟩
+  cases hres : s'.resolved with
+  | true => rfl
+  | false =>
+    obtain ⟨l, hi, hdr, hs⟩ := draining_progress hd' hres
+    have := stepH_of_step_drains hc.toHyperLiveness hdr hs
+    rw [hmax l hi] at this
+    cases this
+
 -- hypotheses are satisfiable: a reachable, resolved state with an accepted connection and a
 -- completed call (signal placed while the call is in flight)
 example : ∃ s, Reachable true true false s ∧ s.resolved = true
     ∧ (connViews s).any (·.accepted) = true ∧ (callViews s).any (·.started) = true := by
   let ls : List Label :=
-    [.offer, .loopAccept 0, .hsDone 0, .issue 0 [[.hdr, .msg 0, .status 0]], .callStart 0 0,
+    [.offer, .loopAccept 0, .hsDone 0, .issue 0 [[.hdr, .msg 0, .status 0]] 0, .callStart 0 0,
      .sigFire, .loopSig, .afterLoop, .connSig 0, .final 0, .permit 0 0, .produce 0 0,
      .deliver 0 0, .deliver 0 0, .deliver 0 0, .connBreak 0, .connDropWatcher 0, .resolve]
   cases hrun : run (init true true false) ls with
@@ -326,7 +533,7 @@ example : ∃ s, Reachable true true false s ∧ s.resolved = true
 example : ∃ s, Reachable true true false s ∧ ShutdownRequested s ∧ Unblocked s
     ∧ s.resolved = false ∧ (callViews s).any (fun v => v.started && v.got != v.plan) = true := by
   refine ⟨_, reachable_run (ls := [.offer, .loopAccept 0, .hsDone 0,
-      .issue 0 [[.hdr], [.msg 0], [.status 0]], .callStart 0 0, .permit 0 0, .sigFire]) .init rfl,
+      .issue 0 [[.hdr], [.msg 0], [.status 0]] 0, .callStart 0 0, .permit 0 0, .sigFire]) .init rfl,
     ?_, ?_, ?_, ?_⟩
   · exact Or.inl rfl
   · exact unblocked_of_bool (by decide)
@@ -346,17 +553,72 @@ example : ∃ s s' cn k, Reachable true true false s ∧ step s (.connSig 0) = s
     ∧ s.conns[0]? = some cn ∧ cn.calls[0]? = some k ∧ k.started = true ∧ k.cancelled = false
     ∧ cn.peerGone = false := by
   refine ⟨_, _, _, _, reachable_run (ls := [.offer, .loopAccept 0, .hsDone 0,
-      .issue 0 [[.hdr], [.status 0]], .callStart 0 0, .sigFire, .loopSig, .afterLoop]) .init rfl,
+      .issue 0 [[.hdr], [.status 0]] 0, .callStart 0 0, .sigFire, .loopSig, .afterLoop]) .init rfl,
     rfl, rfl, rfl, rfl, rfl, rfl⟩
 
 -- … and those of `C13_accepted_call_runs_to_completion`: the signal fires mid-stream (headers and
 -- one message delivered, more to come), handlers then run freely
 example : ∃ s cn k, Reachable true true false s ∧ ShutdownRequested s ∧ s.freeRun = true
+    ∧ RequestsDone s
     ∧ s.conns[0]? = some cn ∧ cn.calls[0]? = some k ∧ k.started = true ∧ k.cancelled = false
     ∧ cn.peerGone = false ∧ k.recv = 2 ∧ k.todo.length = 2 := by
   refine ⟨_, _, _, reachable_run (ls := [.offer, .loopAccept 0, .hsDone 0,
-      .issue 0 [[.hdr], [.msg 0], [.msg 1], [.status 0]], .callStart 0 0, .permit 0 0,
+      .issue 0 [[.hdr], [.msg 0], [.msg 1], [.status 0]] 0, .callStart 0 0, .permit 0 0,
       .produce 0 0, .deliver 0 0, .permit 0 0, .produce 0 0, .deliver 0 0, .sigFire, .freeRun])
-      .init rfl, Or.inl rfl, rfl, rfl, rfl, rfl, rfl, rfl, rfl, rfl⟩
+      .init rfl, Or.inl rfl, rfl, requestsDone_of_bool (by decide), rfl, rfl, rfl, rfl, rfl, rfl,
+      rfl⟩
+
+-- the hypotheses of `C13_every_maximal_run_resolves` are satisfiable by a non-trivial state: one
+-- connection accepted through the TLS handshake set carrying a client-streaming call whose
+-- request is complete (2 of 2 messages sent) and a bidi call that is mid-stream, both released;
+-- a second TLS connection whose client has not spoken yet; then the signal
+example : ∃ s, Reachable true true false s ∧ ShutdownRequested s ∧ Closeable s
+    ∧ s.resolved = false ∧ (callViews s).any (fun v => v.started && v.got != v.plan) = true
+    ∧ s.conns.any (fun cn => cn.tls && cn.accepted) = true
+    ∧ s.conns.any (fun cn => cn.inSet && !cn.tlsOk) = true := by
+  refine ⟨_, reachable_run (ls := [.offerTls true false, .tlsTake 0, .tlsDone 0, .loopAccept 0,
+      .hsDone 0, .offerTls false false, .tlsTake 1,
+      .issue 0 [[.hdr, .msg 0, .status 0]] 2, .callStart 0 0, .reqSend 0 0, .reqSend 0 0,
+      .issue 0 [[.hdr], [.msg 0], [.status 5]] 1, .callStart 0 1, .reqSend 0 1,
+      .permit 0 0, .permit 0 1, .permit 0 1, .permit 0 1, .produce 0 1, .deliver 0 1,
+      .sigFire]) .init rfl, Or.inl rfl, closeable_of_bool (by decide), ?_, ?_, ?_, ?_⟩
+    <;> decide
+
+-- … and the conclusion is not vacuous either: a run of internal steps from such a state that ends
+-- resolved (every call complete), spelled out
+example :
+    let s0 := run (init true true false) [.offer, .loopAccept 0, .hsDone 0,
+      .issue 0 [[.hdr, .msg 0, .status 0]] 1, .callStart 0 0, .reqSend 0 0, .permit 0 0, .sigFire]
+    let ls : List Label := [.loopSig, .afterLoop, .connSig 0, .final 0, .produce 0 0, .deliver 0 0,
+      .deliver 0 0, .deliver 0 0, .connBreak 0, .connDropWatcher 0, .resolve]
+    (s0.map closeableB) = some true ∧ ls.all Label.internal = true
+    ∧ ((s0.bind (run · ls)).map fun s => (s.resolved, acceptedCallsComplete (callViews s)))
+        = some (true, true) := by
+  decide
+
+-- the hypotheses of `C13_failed_handshake_keeps_accepting` are satisfiable, with something to keep
+-- accepting: connection 0 sent plain HTTP (its handshake fails), connection 1 has finished its
+-- handshake and waits in the set for the loop
+example : ∃ s, Reachable true true false s ∧ (step s (.tlsFail 0)).isSome = true
+    ∧ (step s (.loopAccept 1)).isSome = true := by
+  refine ⟨_, reachable_run (ls := [.offerTls false true, .tlsTake 0, .offerTls true false,
+      .tlsTake 1, .tlsDone 1]) .init rfl, ?_, ?_⟩ <;> decide
+
+-- a hyper that is NOT the model's and still satisfies the contract: one that never completes a
+-- handshake and never accepts a stream (the contract asks for neither) — so the contract is
+-- strictly weaker than "hyper = the guards written into `step`"
+example : ∃ H : Hyper, HyperGracefulContract H ∧ H.handshake ≠ hyperModel.handshake := by
+  refine ⟨{ hyperModel with handshake := fun _ => false, acceptStream := fun _ _ => false },
+    { connDone_only := hyperModel_contract.connDone_only
+      handshake_only := by intro cn h; cases h
+      finalGoaway_only := hyperModel_contract.finalGoaway_only
+      acceptStream_only := by intro cn k h; cases h
+      deliver_only := hyperModel_contract.deliver_only
+      connDone_when := hyperModel_contract.connDone_when
+      finalGoaway_when := hyperModel_contract.finalGoaway_when
+      deliver_when := hyperModel_contract.deliver_when }, ?_⟩
+  intro h
+  have := congrFun h (Conn.new false false)
+  simp [hyperModel, Conn.new] at this
 
 end C13
